@@ -67,11 +67,19 @@ open XixiKV.Engine.BatchP XixiKV.Engine.PolicyP XixiKV.Engine.PolicyP.Dur XixiKV
 
 /-! ## hypotheses -/
 
-/-- batch-id freshness of a history: the ids passed to `NewBatch` are pairwise distinct and
-    non-zero (Go: snowflake ids) -/
+/-- the simple form of batch-id freshness: the ids passed to `NewBatch` are pairwise distinct and
+    non-zero.  The theorems below need less (`IdsOK`, `Proofs/CrashHistorySteps.lean`): an id must
+    be non-zero and must not be the id of an ABANDONED batch (dropped, or replaced by `NewBatch`,
+    after some of its records had been written) — an id may be reused once its batch is committed.
+    (Go: `NewBatch` builds a new snowflake node per batch, so two batches created within the same
+    millisecond DO get the same id; there a batch holds the DB lock until `Commit`, so no batch is
+    ever abandoned and `IdsOK` only asks for non-zero ids.) -/
 def FreshIds (ops : List AOp) : Prop := (bnewIds ops).Nodup ∧ ∀ i ∈ bnewIds ops, i ≠ 0
 
 instance (ops : List AOp) : Decidable (FreshIds ops) := by unfold FreshIds; infer_instance
+
+/-- the bookkeeping at the start of a history on a fresh database -/
+abbrev h0 : Hist := ⟨[], [], []⟩
 
 /-- `sc` is a state after a crash of `s`, whose handle worked on directory `dir`; `d` / `dc` are
     the data directory before / after the crash -/
@@ -96,20 +104,21 @@ def NoByteLost (d dc : DirSt) : Prop :=
 /-- the state reached by a history satisfies the run invariant for its units -/
 theorem history_state (s₀ : St) (db₀ : DB) (g₀ : GDir) (ops : List AOp)
     (hs₀ : s₀.db = some db₀) (hf₀ : Files s₀ db₀ g₀) (hnb : db₀.batch = none) (hd₀ : DInv s₀ db₀)
-    (hok : ∀ op ∈ ops, AOpOK op) (hnd : (bnewIds ops).Nodup)
-    (hfresh : ∀ i ∈ bnewIds ops, i ≠ 0 ∧ pendingGet (replayLog (logOf g₀)).pending i = []) :
-    ∃ L h, RunInv L db₀.cfg db₀.dir (arun s₀ ops) h [] ∧
+    (hok : ∀ op ∈ ops, AOpOK op) (hids : IdsOK s₀ ⟨[], [], orphanIds g₀⟩ ops) :
+    ∃ L h, RunInv L db₀.cfg db₀.dir (arun s₀ ops) h ∧
       h.units = unitsOfLog (logOf g₀) ++ unitsOf s₀ ops := by
-  obtain ⟨L, hr⟩ := RunInv_start hs₀ hf₀ hnb hd₀ (bnewIds ops) hnd hfresh
-  have hr' : RunInv L db₀.cfg db₀.dir s₀ ⟨unitsOfLog (logOf g₀), []⟩ (bnewIds ops ++ []) := by
-    rw [List.append_nil]; exact hr
-  exact ⟨L, _, RunInv_arun ops hr' hok, hrun_units ops s₀ _ []⟩
+  obtain ⟨L, hr⟩ := RunInv_start hs₀ hf₀ hnb hd₀
+  refine ⟨L, _, RunInv_arun ops hr hok ((IdsOK_units ops s₀ _ _ _).mpr hids), ?_⟩
+  rw [hrun_units ops s₀ _ [] (orphanIds g₀)]
+  congr 1
+  exact (hrun_indep_dirty ops s₀ [] [] (orphanIds g₀) []).1
 
 /-- **C03 for call histories, from any start state.**
     `s₀`: an open handle `db₀` without batch object whose data files are the ghost directory `g₀`
     (`Files`) and which satisfies the durability invariant; `ops`: any history with the size side
-    conditions, whose new batch ids are pairwise distinct, non-zero, and not the id of orphaned
-    batch records of the old log (nothing parked under them in the replay of `g₀`).
+    conditions and the batch-id side condition `IdsOK`, the ids of orphaned batch records of the
+    old log (`orphanIds g₀`: something is parked under them in the replay of `g₀`) counting as
+    abandoned.
     Let `U = unitsOfLog (logOf g₀) ++ unitsOf s₀ ops` (what the old log denotes, then the units of
     the history).  For EVERY crash image of the state reached, `Open` under any valid configuration
     succeeds and there is `j ≤ U.length` such that the recovered mapping is `specOfUnits (U.take j)`;
@@ -118,8 +127,7 @@ theorem history_state (s₀ : St) (db₀ : DB) (g₀ : GDir) (ops : List AOp)
     exactly `U.take j` (so the theorem applies again to the recovered state). -/
 theorem C03_history_prefix_from (s₀ : St) (db₀ : DB) (g₀ : GDir) (ops : List AOp) (cfg' : Cfg)
     (hs₀ : s₀.db = some db₀) (hf₀ : Files s₀ db₀ g₀) (hnb : db₀.batch = none) (hd₀ : DInv s₀ db₀)
-    (hok : ∀ op ∈ ops, AOpOK op) (hnd : (bnewIds ops).Nodup)
-    (hfresh : ∀ i ∈ bnewIds ops, i ≠ 0 ∧ pendingGet (replayLog (logOf g₀)).pending i = [])
+    (hok : ∀ op ∈ ops, AOpOK op) (hids : IdsOK s₀ ⟨[], [], orphanIds g₀⟩ ops)
     (hcfg' : cfg'.Valid) (sc : St) (d dc : DirSt) (hcr : Crashed (arun s₀ ops) sc db₀.dir d dc) :
     ∃ s' db' g' j, openDB sc db₀.dir cfg' = (s', .ok) ∧ s'.db = some db' ∧
       j ≤ (unitsOfLog (logOf g₀) ++ unitsOf s₀ ops).length ∧
@@ -127,7 +135,7 @@ theorem C03_history_prefix_from (s₀ : St) (db₀ : DB) (g₀ : GDir) (ops : Li
       (NoByteLost d dc → j = (unitsOfLog (logOf g₀) ++ unitsOf s₀ ops).length) ∧
       (∀ n, Durable (arun s₀ ops) n → n ≤ j) ∧
       Inv s' db' g' ∧ unitsOfLog (logOf g') = (unitsOfLog (logOf g₀) ++ unitsOf s₀ ops).take j := by
-  obtain ⟨L, h, hr, hu⟩ := history_state s₀ db₀ g₀ ops hs₀ hf₀ hnb hd₀ hok hnd hfresh
+  obtain ⟨L, h, hr, hu⟩ := history_state s₀ db₀ g₀ ops hs₀ hf₀ hnb hd₀ hok hids
   obtain ⟨s', db', g', j, h1, h2, h3, h4, h5, h6, h7, h8⟩ :=
     crash_of_RunInv hr sc cfg' d dc hcr.before hcr.nodb hcr.after hcr.unlocked hcr.image hcr.nomerge hcfg'
   rw [hu] at h4 h5 h6 h7
@@ -137,8 +145,20 @@ theorem C03_history_prefix_from (s₀ : St) (db₀ : DB) (g₀ : GDir) (ops : Li
 theorem fresh_start (dir : String) (cfg : Cfg) (hcfg : cfg.Valid) :
     (openDB St.init dir cfg).1 = freshSt dir cfg ∧ (freshSt dir cfg).db = some (freshDB dir cfg) ∧
       Files (freshSt dir cfg) (freshDB dir cfg) [(0, [])] ∧ DInv (freshSt dir cfg) (freshDB dir cfg) ∧
-      unitsOfLog (logOf [(0, [])]) = [] ∧ (replayLog (logOf [(0, [])])).pending = [] := by
+      unitsOfLog (logOf [(0, [])]) = [] ∧ orphanIds [(0, [])] = [] := by
   refine ⟨by rw [openDB_fresh_eq dir cfg hcfg], rfl, (Inv_fresh dir cfg).files, DInv_fresh dir cfg, rfl, rfl⟩
+
+/-- the simple freshness condition implies the batch-id side condition (fresh database) -/
+theorem idsOK_of_freshIds (dir : String) (cfg : Cfg) (hcfg : cfg.Valid) (ops : List AOp)
+    (hok : ∀ op ∈ ops, AOpOK op) (hfr : FreshIds ops) : IdsOK (openDB St.init dir cfg).1 h0 ops := by
+  obtain ⟨e0, e1, e2, e3, _, e5⟩ := fresh_start dir cfg hcfg
+  obtain ⟨L, hr⟩ := RunInv_start e1 e2 rfl e3
+  rw [e0]
+  apply (IdsOK_units ops _ (unitsOfLog (logOf [(0, [])])) [] []).mp
+  rw [e5] at hr
+  refine IdsOK_of_fresh ops hr hok hfr.1 ?_
+  intro i hi
+  exact ⟨hfr.2 i hi, by simp, fun b hb => by simp [batchOf, freshSt, freshDB] at hb⟩
 
 /-- **C03 for call histories** (fresh database).  For every valid `cfg`, `cfg'`, directory `dir`
     and history `ops` with the size side conditions and fresh batch ids, let `s` be the state
@@ -151,7 +171,7 @@ theorem fresh_start (dir : String) (cfg : Cfg) (hcfg : cfg.Valid) :
     (b) `j ≥ n` for every `n` such that the first `n` units end inside the flushed prefixes of
         their files (`Durable s n`). -/
 theorem C03_history_prefix (dir : String) (cfg cfg' : Cfg) (hcfg : cfg.Valid) (hcfg' : cfg'.Valid)
-    (ops : List AOp) (hok : ∀ op ∈ ops, AOpOK op) (hids : FreshIds ops)
+    (ops : List AOp) (hok : ∀ op ∈ ops, AOpOK op) (hids : IdsOK (openDB St.init dir cfg).1 h0 ops)
     (sc : St) (d dc : DirSt) (hcr : Crashed (arun (openDB St.init dir cfg).1 ops) sc dir d dc) :
     ∃ s' db' j, openDB sc dir cfg' = (s', .ok) ∧ s'.db = some db' ∧
       j ≤ (unitsOf (openDB St.init dir cfg).1 ops).length ∧
@@ -159,10 +179,10 @@ theorem C03_history_prefix (dir : String) (cfg cfg' : Cfg) (hcfg : cfg.Valid) (h
       (NoByteLost d dc → j = (unitsOf (openDB St.init dir cfg).1 ops).length) ∧
       (∀ n, Durable (arun (openDB St.init dir cfg).1 ops) n → n ≤ j) := by
   obtain ⟨e0, e1, e2, e3, e4, e5⟩ := fresh_start dir cfg hcfg
-  rw [e0] at hcr ⊢
+  rw [e0] at hcr hids ⊢
   obtain ⟨s', db', g', j, h1, h2, h3, h4, h5, h6, _, _⟩ :=
-    C03_history_prefix_from (freshSt dir cfg) (freshDB dir cfg) [(0, [])] ops cfg' e1 e2 rfl e3 hok hids.1
-      (fun i hi => ⟨hids.2 i hi, by rw [e5]; rfl⟩) hcfg' sc d dc hcr
+    C03_history_prefix_from (freshSt dir cfg) (freshDB dir cfg) [(0, [])] ops cfg' e1 e2 rfl e3 hok
+      (by rw [e5]; exact hids) hcfg' sc d dc hcr
   rw [e4, List.nil_append] at h3 h4 h5
   exact ⟨s', db', j, h1, h2, h3, h4, h5, h6⟩
 
@@ -171,7 +191,7 @@ theorem C03_history_prefix (dir : String) (cfg cfg' : Cfg) (hcfg : cfg.Valid) (h
 /-- in a state reached by a history, if every data file is completely flushed then every
     acknowledged unit is durable -/
 theorem durable_of_allSynced {L : Nat} {cfg : Cfg} {dir : String} {s : St} {h : Hist}
-    (hr : RunInv L cfg dir s h []) (hall : ∀ db, s.db = some db → AllSynced s db) :
+    (hr : RunInv L cfg dir s h) (hall : ∀ db, s.db = some db → AllSynced s db) :
     Durable s h.units.length := by
   obtain ⟨db, g, hi⟩ := hr.hinv
   have := Durable_all hi.open_ hi.files (hall db hi.open_)
@@ -181,7 +201,7 @@ theorem durable_of_allSynced {L : Nat} {cfg : Cfg} {dir : String} {s : St} {h : 
     history reaches every data file is completely flushed (`AllSynced`), then EVERY crash image
     exposes the mapping of ALL acknowledged units -/
 theorem C03_history_flushed (dir : String) (cfg cfg' : Cfg) (hcfg : cfg.Valid) (hcfg' : cfg'.Valid)
-    (ops : List AOp) (hok : ∀ op ∈ ops, AOpOK op) (hids : FreshIds ops)
+    (ops : List AOp) (hok : ∀ op ∈ ops, AOpOK op) (hids : IdsOK (openDB St.init dir cfg).1 h0 ops)
     (hall : ∀ db, (arun (openDB St.init dir cfg).1 ops).db = some db →
       AllSynced (arun (openDB St.init dir cfg).1 ops) db)
     (sc : St) (d dc : DirSt) (hcr : Crashed (arun (openDB St.init dir cfg).1 ops) sc dir d dc) :
@@ -189,8 +209,8 @@ theorem C03_history_flushed (dir : String) (cfg cfg' : Cfg) (hcfg : cfg.Valid) (
       ∀ k, absGet s' db' k = specOfUnits (unitsOf (openDB St.init dir cfg).1 ops) k := by
   obtain ⟨s', db', j, h1, h2, h3, h4, _, h6⟩ := C03_history_prefix dir cfg cfg' hcfg hcfg' ops hok hids sc d dc hcr
   obtain ⟨e0, e1, e2, e3, e4, e5⟩ := fresh_start dir cfg hcfg
-  obtain ⟨L, h, hr, hu⟩ := history_state (freshSt dir cfg) (freshDB dir cfg) [(0, [])] ops e1 e2 rfl e3 hok hids.1
-    (fun i hi => ⟨hids.2 i hi, by rw [e5]; rfl⟩)
+  obtain ⟨L, h, hr, hu⟩ := history_state (freshSt dir cfg) (freshDB dir cfg) [(0, [])] ops e1 e2 rfl e3 hok
+    (by rw [e5, ← e0]; exact hids)
   rw [e4, List.nil_append, ← e0] at hu
   rw [← e0] at hr
   have hdur := durable_of_allSynced hr hall
@@ -216,7 +236,7 @@ theorem C03_history_always (dir : String) (cfg cfg' : Cfg) (hcfg : cfg.Valid) (h
     (hop : (∃ k v, op = .put k v ∧ k.size ≠ 0) ∨
       (∃ k, op = .del k ∧ k.size ≠ 0 ∧
         ∀ db, (arun (openDB St.init dir cfg).1 pre).db = some db → (Index.get db.index k).isSome))
-    (hok : ∀ o ∈ pre ++ [op], AOpOK o) (hids : FreshIds (pre ++ [op]))
+    (hok : ∀ o ∈ pre ++ [op], AOpOK o) (hids : IdsOK (openDB St.init dir cfg).1 h0 (pre ++ [op]))
     (sc : St) (d dc : DirSt) (hcr : Crashed (arun (openDB St.init dir cfg).1 (pre ++ [op])) sc dir d dc) :
     ∃ s' db', openDB sc dir cfg' = (s', .ok) ∧ s'.db = some db' ∧
       ∀ k, absGet s' db' k = specOfUnits (unitsOf (openDB St.init dir cfg).1 (pre ++ [op])) k := by
@@ -269,10 +289,11 @@ theorem C03_history_always_plain (dir : String) (cfg cfg' : Cfg) (hcfg : cfg.Val
     (hcr : Crashed (arun (openDB St.init dir cfg).1 (pl.map plainOp)) sc dir d dc) :
     ∃ s' db', openDB sc dir cfg' = (s', .ok) ∧ s'.db = some db' ∧
       ∀ k, absGet s' db' k = specOfUnits (unitsOf (openDB St.init dir cfg).1 (pl.map plainOp)) k := by
-  have hids : FreshIds (pl.map plainOp) := by
-    unfold FreshIds
-    rw [bnewIds_plain]
-    exact ⟨List.nodup_nil, fun i hi => by simp at hi⟩
+  have hids : IdsOK (openDB St.init dir cfg).1 h0 (pl.map plainOp) :=
+    idsOK_of_freshIds dir cfg hcfg _ hok (by
+      unfold FreshIds
+      rw [bnewIds_plain]
+      exact ⟨List.nodup_nil, fun i hi => by simp at hi⟩)
   apply C03_history_flushed dir cfg cfg' hcfg hcfg' _ hok hids ?_ sc d dc hcr
   obtain ⟨e0, e1, _, e3, _, _⟩ := fresh_start dir cfg hcfg
   rw [arun_plain, e0]
@@ -283,7 +304,7 @@ theorem C03_history_always_plain (dir : String) (cfg cfg' : Cfg) (hcfg : cfg.Val
 
 /-- **after `Sync()`** everything acknowledged so far survives a power failure -/
 theorem C03_history_after_sync (dir : String) (cfg cfg' : Cfg) (hcfg : cfg.Valid) (hcfg' : cfg'.Valid)
-    (pre : List AOp) (hok : ∀ o ∈ pre ++ [.sync], AOpOK o) (hids : FreshIds (pre ++ [.sync]))
+    (pre : List AOp) (hok : ∀ o ∈ pre ++ [.sync], AOpOK o) (hids : IdsOK (openDB St.init dir cfg).1 h0 (pre ++ [.sync]))
     (sc : St) (d dc : DirSt) (hcr : Crashed (arun (openDB St.init dir cfg).1 (pre ++ [.sync])) sc dir d dc) :
     ∃ s' db', openDB sc dir cfg' = (s', .ok) ∧ s'.db = some db' ∧
       ∀ k, absGet s' db' k = specOfUnits (unitsOf (openDB St.init dir cfg).1 (pre ++ [.sync])) k := by
@@ -325,7 +346,7 @@ theorem take_split {α : Type} (U : List α) (i j : Nat) (u : α) (hu : U[i]? = 
     units acknowledged BEFORE the batch —, OR `i < j`: ALL its operations were applied, in order,
     on top of the mapping of the units before it (followed by the later units up to `j`). -/
 theorem C04_history_atomic (dir : String) (cfg cfg' : Cfg) (hcfg : cfg.Valid) (hcfg' : cfg'.Valid)
-    (ops : List AOp) (hok : ∀ op ∈ ops, AOpOK op) (hids : FreshIds ops)
+    (ops : List AOp) (hok : ∀ op ∈ ops, AOpOK op) (hids : IdsOK (openDB St.init dir cfg).1 h0 ops)
     (sc : St) (d dc : DirSt) (hcr : Crashed (arun (openDB St.init dir cfg).1 ops) sc dir d dc) :
     ∃ s' db' j, openDB sc dir cfg' = (s', .ok) ∧ s'.db = some db' ∧
       j ≤ (unitsOf (openDB St.init dir cfg).1 ops).length ∧
@@ -361,7 +382,7 @@ theorem C04_history_sync_durable (dir : String) (cfg cfg' : Cfg) (hcfg : cfg.Val
     (pre : List AOp) (b : BatchSt)
     (hb : batchOf (arun (openDB St.init dir cfg).1 pre) = some b)
     (hsy : b.sync = true) (hc : b.committed = false) (he : b.staged ≠ [])
-    (hok : ∀ o ∈ pre ++ [.bcommit], AOpOK o) (hids : FreshIds (pre ++ [.bcommit]))
+    (hok : ∀ o ∈ pre ++ [.bcommit], AOpOK o) (hids : IdsOK (openDB St.init dir cfg).1 h0 (pre ++ [.bcommit]))
     (sc : St) (d dc : DirSt)
     (hcr : Crashed (arun (openDB St.init dir cfg).1 (pre ++ [.bcommit])) sc dir d dc) :
     (∃ fl, unitsOf (openDB St.init dir cfg).1 (pre ++ [.bcommit])
@@ -369,7 +390,7 @@ theorem C04_history_sync_durable (dir : String) (cfg cfg' : Cfg) (hcfg : cfg.Val
     ∃ s' db', openDB sc dir cfg' = (s', .ok) ∧ s'.db = some db' ∧
       ∀ k, absGet s' db' k = specOfUnits (unitsOf (openDB St.init dir cfg).1 (pre ++ [.bcommit])) k := by
   refine ⟨?_, ?_⟩
-  · refine ⟨(hrun (openDB St.init dir cfg).1 ⟨[], []⟩ pre).flushed, ?_⟩
+  · refine ⟨(hrun (openDB St.init dir cfg).1 ⟨[], [], []⟩ pre).flushed, ?_⟩
     unfold unitsOf
     rw [hrun_append]
     simp only [hrun, hstep, hb, hc, he, ne_eq, not_false_eq_true, and_self, if_true]
